@@ -65,6 +65,13 @@ def rule_if_conf(cx, rep, port='py'):
         if c.modname in ('rbql_pandas', 'rbql_sqlite'):
             data = [r for r in rets if r.value is not None and not is_none(r.value)]
             ok = data and all(isinstance(r.value, ast.Call) and dotted(r.value.func) == 'list' for r in data)
+            if not ok:
+                # by path value: `return None if row is None else list(row)` is the same thing
+                from .. import pathsem as _ps
+                gps = _ps.paths(gr)
+                if gps is not None:
+                    vals = [q_.value for q_ in gps if q_.kind == 'return' and q_.value is not None and not is_none(q_.value)]
+                    ok = bool(vals) and all(isinstance(v_, ast.Call) and dotted(v_.func) == 'list' for v_ in vals)
             rep.decide(bool(ok), '{}.get_record list'.format(c.name), gr, 'tuple rows are converted to lists', '{} hands the engine a non-list row (star expansion concatenates lists)'.format(c.name))
     # interface defaults: the base classes' optional methods return neutral values
     base = p.cls('rbql_engine', 'RBQLInputIterator')
@@ -81,6 +88,13 @@ def rule_if_entry(cx, rep, port='py'):
         fd = p.func(m, f)
         calls = [c for c in walk_no_nested(fd) if isinstance(c, ast.Call) and (call_name(c) or '').split('.')[-1] == 'query']
         ok = len(calls) == 1 and len(calls[0].args) >= 4 and is_name(calls[0].args[0], 'query_text')
+        if not ok and calls and all(len(c.args) >= 4 and is_name(c.args[0], 'query_text') for c in calls):
+            # several call sites (one per branch): every normal path runs the query exactly once
+            from .. import pathsem as _ps
+            eps = _ps.paths(fd)
+            if eps is not None:
+                per_path = [sum(1 for e_ in q_.calls for x in ast.walk(e_) if isinstance(x, ast.Call) and (call_name(x) or '').split('.')[-1] == 'query') for q_ in eps if q_.kind == 'return' and not q_.in_handler]
+                ok = bool(per_path) and all(k_ == 1 for k_ in per_path)
         rep.decide(ok, '{}.{}'.format(m, f), calls[0] if calls else fd, 'delegates to rbql_engine.query(query_text, iterator, writer, warnings, ...)', '{} does not delegate the unchanged query text to rbql_engine.query exactly once'.format(f))
         if ok:
             c = calls[0]
@@ -318,8 +332,48 @@ def rule_cl_exit(cx, rep, port='py'):
         wrong = {k_: v_ for k_, v_ in got_fmt.items() if want_fmt[k_] != v_}
         rep.decide(not wrong, 'out-format table', f, 'csv -> (",", quoted), tsv -> (TAB, simple), monocolumn', 'named output formats changed: {}'.format(wrong))
     r = p.func('rbql_main', 'run_with_python_csv')
-    oko = "(delim, policy) if args.out_format == 'input' else rbql_csv.interpret_named_csv_format(args.out_format)" in node_text(r, 6000)
-    rep.decide(oko, 'out-format input', r, '--out-format input reuses the input dialect', '--out-format input no longer reuses the input delimiter and policy')
+    # on the paths where --out-format is `input` the output dialect handed to query_csv is the input dialect; otherwise it is what
+    # interpret_named_csv_format gives for the named format (decided on path summaries: locals substituted along each path)
+    from .. import pathsem as _ps
+    rps = _ps.paths(r)
+    oko = None
+    if rps is not None:
+        seen_in = seen_named = 0
+        oko = True
+        for q_ in rps:
+            calls_ = [x for e_ in list(q_.calls) + list(q_.env.values()) + ([q_.value] if q_.value is not None else []) for x in ast.walk(e_) if isinstance(x, ast.Call) and (dotted(x.func) or '').endswith('query_csv') and len(x.args) >= 7]
+            if not calls_:
+                continue
+            c_ = calls_[0]
+            is_input = None
+            for atom, pol in _ps.atoms(q_.conds):
+                if isinstance(atom, ast.Compare) and len(atom.ops) == 1 and isinstance(atom.ops[0], ast.Eq) and 'out_format' in node_text(atom.left, 80) and isinstance(atom.comparators[0], ast.Constant) and atom.comparators[0].value == 'input':
+                    is_input = pol
+            def through_stores(e_, q_=q_):
+                # an attribute the path has just assigned (`args.output_delim = ...`) stands for the value stored
+                for t_, v_ in reversed(q_.stores):
+                    if node_text(t_, 200) == node_text(e_, 200):
+                        return v_
+                return e_
+            o5, o6 = through_stores(c_.args[5]), through_stores(c_.args[6])
+            same = ast.dump(o5) == ast.dump(c_.args[2]) and ast.dump(o6) == ast.dump(c_.args[3])
+            named = all('interpret_named_csv_format' in node_text(a_, 300) for a_ in (o5, o6))
+            if is_input is True:
+                seen_in += 1
+                oko = oko and same
+            elif is_input is False:
+                seen_named += 1
+                oko = oko and named
+        if not (seen_in and seen_named):
+            oko = None
+    if oko is None:
+        oko_txt = "(delim, policy) if args.out_format == 'input' else rbql_csv.interpret_named_csv_format(args.out_format)" in node_text(r, 6000)
+        if oko_txt:
+            rep.holds('out-format input', r, '--out-format input reuses the input dialect')
+        else:
+            rep.undecided('out-format input', r, 'how the output dialect is chosen was not recognised')
+    else:
+        rep.decide(oko, 'out-format input', r, '--out-format input reuses the input dialect; a named format gives its own', '--out-format input no longer reuses the input delimiter and policy (or a named format does not give its dialect)')
     gd = p.func('rbql_main', 'get_default_policy')
     t = node_text(gd, 1000).replace(' ', '')
     okg = "ifdelimin[';',',']:return'quoted'" in t and "elifdelim=='':return'whitespace'" in t.replace("' '", "''") and "else:return'simple'" in t
